@@ -783,10 +783,14 @@ def build_all(res, rng, thorough, do, groups, executed_kind):
         c["ini"] = ini_opts(opts, "auto", rng.randrange(3))
         ems.append(c)
         # legacy profile emission (IDs), selected with -p or with the INI `profile` option
-        prof = {"profiles": {"sel": {"include": tests or None, "exclude": skips or None}}}
-        c = new_case("single", False, "profile-yaml-p"); c["cfg"] = cfg_doc("yaml", prof, rng.randrange(2)); c["cli"]["profile"] = "sel"; ems.append(c)
-        tprof = {"profiles": {"sel": {k: v for k, v in (("include", tests), ("exclude", skips)) if v}}}
-        c = new_case("single", False, "profile-toml-ini"); c["cfg"] = cfg_doc("toml", tprof, 0); c["ini"] = ini_opts({"profile": "sel"}); ems.append(c)
+        # profile names are the user's data, not option names: any spelling selects the same tests through every carrier (seeded change C13-m7 normalised
+        # `-` to `_` in every key of the TOML table, profile names included, so `-p web-app` no longer found its profile in pyproject.toml)
+        pname = rng.choice(["sel", "web-app", "my.profile", "Profile_1", "ci-strict-2", "tests", "exclude-dirs", "a-b_c-d", "x y"])
+        prof = {"profiles": {pname: {"include": tests or None, "exclude": skips or None}}}
+        c = new_case("single", False, "profile-yaml-p"); c["cfg"] = cfg_doc("yaml", prof, rng.randrange(2)); c["cli"]["profile"] = pname; ems.append(c)
+        tprof = {"profiles": {pname: {k: v for k, v in (("include", tests), ("exclude", skips)) if v}}}
+        c = new_case("single", False, "profile-toml-ini"); c["cfg"] = cfg_doc("toml", tprof, 0); c["ini"] = ini_opts({"profile": pname}); ems.append(c)
+        c = new_case("single", False, "profile-toml-p"); c["cfg"] = cfg_doc("toml", tprof, rng.randrange(2)); c["cli"]["profile"] = pname; ems.append(c)
         idx = [do(c, stream="select-random") for c in ems]
         group("equal", idx, abstract={"tests": tests, "skips": skips})
     # ---- contradictory selections: every pair of carriers
